@@ -510,6 +510,49 @@ def wrapper_calls(repo, module, fn):
     return out
 
 
+def memo_lookup(e):
+    """``self.C.setdefault(K, V)`` / ``self.C.get(K, V)`` -> (container, K, V)"""
+    if isinstance(e, ast.Call) and isinstance(e.func, ast.Attribute) and e.func.attr in ("setdefault", "get") \
+            and astq.is_self_attr(e.func.value) and len(e.args) == 2:
+        return e.func.value, e.args[0], e.args[1]
+    return None
+
+
+_FIELD_DEPS = {}
+
+
+def field_dependencies(repo):
+    """record field -> key roles its value varies with, read off the arguments Orchestrator.fit_predict passes to
+    save_predictions (provenance over the components yielded by _iter)."""
+    key = id(repo)
+    if key in _FIELD_DEPS:
+        return _FIELD_DEPS[key]
+    from ..report import Ctx
+    out = {}
+    try:
+        roles = analyse_iter(Ctx("C19", repo), repo)
+        if roles is not None:
+            cons = Consumer(repo, repo.cls(ORCH + ":Orchestrator"), "fit_predict", roles)
+            role_of = {"R_strategy": {"S"}, "R_dataset": {"D"}, "R_data": {"D"}, "R_task": {"D"}, "R_fold": {"F"},
+                       "R_train_idx": {"D", "F", "P"}, "R_test_idx": {"D", "F", "P"}}
+            for call, m in cons.results_calls():
+                if m != "save_predictions":
+                    continue
+                h = repo.lookup_method(cons.hdd, m)
+                b = astq.bind_call(h[1], call, skip_self=True) if h else None
+                for f, v in (b or {}).items():
+                    if isinstance(v, ast.AST):
+                        names = {n.id for n in ast.walk(cons.sub(v, call)) if isinstance(n, ast.Name) and n.id in role_of}
+                        d = set()
+                        for n in names:
+                            d |= role_of[n]
+                        out[f] = out.get(f, set()) | d
+    except (AnalysisError, ValueError):
+        out = {}
+    _FIELD_DEPS[key] = out
+    return out
+
+
 def rule_R3_fields(ctx, repo, reg_pos):
     """Record fields: what is stored under a name is what is read back under that name."""
     wcls = repo.cls(BASE + ":_PredictionsWrapper")
@@ -624,6 +667,29 @@ def rule_R3_fields(ctx, repo, reg_pos):
                     continue
                 src = strip_wrappers(S.subst(a, env))
                 c = "RAMResults.save_predictions:field:" + f
+                memo = memo_lookup(src)
+                if memo is not None:
+                    # (H2) the field is read through an instance-level memo: its key must cover every component of the
+                    # record key the stored value varies with (derived from what fit_predict passes in)
+                    cont, key, val = memo
+                    val = strip_wrappers(val)
+                    deps = field_dependencies(repo).get(f)
+                    kroles = set()
+                    for e in (key.elts if isinstance(key, ast.Tuple) else [key]):
+                        k = classify_source(e, fn, reg_pos)
+                        if k[0] == "role":
+                            kroles.add(k[1])
+                    if not (isinstance(val, ast.Name) and val.id == f) or deps is None:
+                        ctx.undecided("R3", c, "field %s <- memo %s" % (f, astq.canon(src)[:70]), ctx.loc(dcls.module, call))
+                    else:
+                        missing = sorted(deps - kroles)
+                        ctx.check(not missing, "R3", c, "field %s memoised under a key covering %s" % (f, sorted(deps)),
+                                  "field %s is taken from the instance-level memo %s keyed by (%s) only, but the value fit_predict passes "
+                                  "varies with the %s: records that differ in it share whichever value was stored first (e.g. the "
+                                  "train and the test record of one fold)" % (
+                                      f, astq.canon(cont), ", ".join(ROLE_TEXT[r] for r in sorted(kroles)),
+                                      " and ".join(ROLE_TEXT[r] for r in missing)), ctx.loc(dcls.module, call))
+                    continue
                 if isinstance(src, ast.Name) and src.id in params:
                     ctx.check(src.id == f, "R3", c, "field %s <- argument %s" % (f, f),
                               "record field %s receives the argument %s" % (f, src.id), ctx.loc(dcls.module, call))
@@ -1760,6 +1826,127 @@ def rule_default_features(ctx, repo):
         ctx.violation("R4", c, "for data columns %s and target 'target' the default features are %s, expected %s" % (cols, got, want), loc)
 
 
+# ------------------------------------------------------------------- contracts the orchestration rules rely on
+LOSSY_CALLS = {"os.path.splitext", "os.path.basename", "os.path.dirname", "os.path.normpath", "os.path.split", "hash", "len", "repr"}
+
+
+def returns_param_unchanged(repo, module, fn, pname):
+    """Does ``fn`` return its parameter ``pname`` itself on every return?  ('yes', '') | ('no', witness) | ('unknown', why)"""
+    rets = astq.returns(fn)
+    if not rets or any(r.value is None for r in rets):
+        return ("no", "%s returns None on some path" % fn.name)
+    g = CFG(fn)
+    for r in rets:
+        if not (isinstance(r.value, ast.Name) and r.value.id == pname):
+            v = S.resolve_at(fn, r.value, r)
+            if isinstance(v, ast.Name) and v.id == pname:
+                continue
+            return ("unknown" if S.is_opaque(v) else "no", "%s returns %s" % (fn.name, astq.canon(r.value)[:60]))
+    rebinds = [n for n in astq.walk_no_nested(fn) if isinstance(n, (ast.Assign, ast.AugAssign, ast.AnnAssign))
+               and any(isinstance(t, ast.Name) and t.id == pname for t in ast.walk(n) if isinstance(getattr(t, "ctx", None), ast.Store))]
+    for a in rebinds:
+        node = g.node_of(a)
+        if node is not None and g.may_reach_after(node, lambda n: n.kind == "return"):
+            val = getattr(a, "value", None)
+            return ("no", "%s rebinds %s to %s (line %s) before returning it" % (fn.name, pname, astq.canon(val)[:60] if val is not None else "?", a.lineno))
+    return ("yes", "")
+
+
+def attr_from_param(repo, cls, attr, pname):
+    """How ``cls.__init__`` derives ``self.<attr>`` from its parameter ``pname``."""
+    hit = repo.lookup_method(cls, "__init__")
+    if hit is None:
+        return ("unknown", "no constructor"), None
+    k, init = hit
+    st = [(v, n) for a, v, n in astq.self_attr_stores(init) if a == attr]
+    if len(st) != 1 or st[0][0] is None:
+        return ("unknown", "self.%s stored %d times in %s.__init__" % (attr, len(st), k.name)), init
+    val = S.resolve_at(init, st[0][0], st[0][1])
+
+    def classify(e):
+        if isinstance(e, ast.Name) and e.id == pname:
+            return ("yes", "")
+        if isinstance(e, ast.IfExp):
+            t = e.test
+            none_test = isinstance(t, ast.Compare) and isinstance(t.left, ast.Name) and t.left.id == pname and len(t.ops) == 1 \
+                and isinstance(t.comparators[0], ast.Constant) and t.comparators[0].value is None
+            if none_test:
+                given = e.orelse if isinstance(t.ops[0], ast.Is) else e.body
+                return classify(given)
+        if isinstance(e, ast.Call):
+            uses = [a for a in list(e.args) + [kw.value for kw in e.keywords] if any(isinstance(n, ast.Name) and n.id == pname for n in ast.walk(a))]
+            if self_call(e) and len(uses) == 1 and isinstance(uses[0], ast.Name):
+                h = repo.lookup_method(cls, e.func.attr)
+                if h is not None:
+                    b = astq.bind_call(h[1], e, skip_self=not h[0].is_static(e.func.attr)) or {}
+                    formal = [p for p, v in b.items() if v is uses[0]]
+                    if formal:
+                        return returns_param_unchanged(repo, h[0].module, h[1], formal[0])
+            sym = repo.resolve_expr(k.module, e.func)
+            full = sym.dotted if sym is not None else dotted(e.func)
+            if isinstance(e.func, ast.Attribute) and isinstance(e.func.value, ast.Name) and e.func.value.id == pname:
+                return ("no" if e.func.attr in LOSSY_STR_METHODS else "unknown", "%s.%s(...)" % (pname, e.func.attr))
+            if full in LOSSY_CALLS:
+                return ("no", "%s(%s)" % (full, pname))
+            return ("unknown", astq.canon(e)[:60])
+        if isinstance(e, ast.Subscript):
+            inner = classify(e.value)
+            if inner[0] == "no" or (isinstance(e.value, ast.Name) and e.value.id == pname):
+                return ("no", astq.canon(e)[:60])
+            if isinstance(e.value, ast.Call):
+                return classify(e.value) if classify(e.value)[0] == "no" else ("unknown", astq.canon(e)[:60])
+        return ("unknown", astq.canon(e)[:60])
+
+    return classify(val), st[0][1]
+
+
+def rule_identity_contracts(ctx, repo):
+    """The orchestration rules identify records by ``strategy.name`` / ``dataset.name`` and compare with "a clone of the
+    strategy's estimator": decided here from the sources -- the properties return what the constructor was given."""
+    jobs = [("R3", BASE + ":BaseDataset", "name", "_name", "name", "two data sets whose names differ only in what is cut off share one record key"),
+            ("R3", STRAT + ":BaseStrategy", "name", "_name", "name", "two strategies whose names differ only in what is cut off share one record key"),
+            ("R4", STRAT + ":BaseStrategy", "estimator", "_estimator", "estimator", "the strategy fits and predicts with another object than the estimator it was given")]
+    for rule, q, prop, attr, pname, effect in jobs:
+        cls = repo.cls(q)
+        c = "%s.%s:is-constructor-argument" % (cls.name, prop)
+        getter = cls.properties.get(prop, {}).get("getter")
+        loc = ctx.loc(cls.module, cls.node)
+        if getter is None:
+            ctx.undecided(rule, c, "no property %s" % prop, loc)
+            continue
+        rets = astq.returns(getter)
+        if not (len(rets) == 1 and astq.is_self_attr(rets[0].value, attr=attr)):
+            ctx.undecided(rule, c, "property %s does not simply return self.%s" % (prop, attr), ctx.loc(cls.module, getter))
+            continue
+        (verdict, why), node = attr_from_param(repo, cls, attr, pname)
+        loc = ctx.loc(cls.module, node) if node is not None else loc
+        if verdict == "yes":
+            ctx.ok(rule, c, "%s.%s returns the constructor argument %s unchanged" % (cls.name, prop, pname), loc)
+        elif verdict == "no":
+            ctx.violation(rule, c, "%s.%s is not the %s the object was constructed with: %s -- %s" % (cls.name, prop, pname, why, effect), loc)
+        else:
+            ctx.undecided(rule, c, "cannot establish that %s.%s is the constructor argument: %s" % (cls.name, prop, why), loc)
+    # subclasses hand their own name on unchanged
+    base = repo.cls(BASE + ":BaseDataset")
+    for k in repo.subclasses(base):
+        init = k.methods.get("__init__")
+        if init is None or "name" not in astq.param_names(init, skip_self=True):
+            continue
+        c = "%s.__init__:name-forwarded" % k.name
+        sup = [x for x in astq.calls(init) if isinstance(x.func, ast.Attribute) and x.func.attr == "__init__"
+               and isinstance(x.func.value, ast.Call) and dotted(x.func.value.func) == "super"]
+        hit = repo.lookup_method(k, "__init__", after=k)
+        if len(sup) != 1 or hit is None:
+            ctx.undecided("R3", c, "expected one super().__init__ call", ctx.loc(k.module, init))
+            continue
+        b = astq.bind_call(hit[1], sup[0], skip_self=True) or {}
+        v = b.get("name")
+        ok = isinstance(v, ast.Name) and v.id == "name" and not astq.assigned_in(init, "name")
+        ctx.check(ok if v is not None else None, "R3", c, "passes its name argument on unchanged",
+                  "passes %s as the data set's name instead of its own name argument" % (astq.canon(v) if v is not None else "?"),
+                  ctx.loc(k.module, sup[0]))
+
+
 def selection_kind(expr, data_param):
     """How a strategy method selects the estimator's input columns from its ``data`` parameter."""
     m = S.match("H_D[H_E]", expr)
@@ -1850,6 +2037,7 @@ def run(ctx):
     rule_splitters_stateless(ctx, repo)
     rule_feature_selection(ctx, repo)
     rule_default_features(ctx, repo)
+    rule_identity_contracts(ctx, repo)
     rule_no_deletion(ctx, repo)
     ctx.floor("R1", 2)
     ctx.floor("R2", 11)
